@@ -151,8 +151,9 @@ def collect(prop, ctx):
             obs.append({'name': 'kani:%s:%s' % (k['unit'], k['harness']), 'engine': 'kani', 'status': 'deferred',
                         'why': 'thorough tier only (measured %s)' % k.get('cost', '> 2 min')})
             continue
-        by_unit.setdefault((k['unit'], k.get('timeout', 600)), []).append(k)
-    for (unit, timeout), ks in by_unit.items():
+        by_unit.setdefault(k['unit'], []).append(k)
+    for unit, ks in by_unit.items():
+        timeout = max(k.get('timeout', 600) for k in ks)
         res = ctx.kani_results(unit, [k['harness'] for k in ks], timeout)
         for k in ks:
             r = res[k['harness']]
@@ -331,7 +332,8 @@ def write_evidence(prop, tier, seed, spec, obs, proved, bounded, deferred, faile
     ev = {
         'property_id': prop, 'tier': tier, 'seed': seed, 'level': 'proof',
         'coverage': {
-            'obligations': len(proved) + len(failed) + len(undec),
+            'obligations': len(proved) + len([o for o in failed if not o.get('known_finding')]) + len(undec),
+            'known_findings': [{'name': o['name'], 'failed': o.get('failed')} for o in failed if o.get('known_finding')],
             'discharged': len(proved),
             'checker_cmd': './check %s --tier %s   [runs: %s]' % (prop, tier, ' ;; '.join(c[:400] for c in cmds[:6]) or 'all results from content-addressed cache'),
             'trusted_base': trusted,
